@@ -148,8 +148,79 @@ fn enc(w: &[&str]) -> String {
     }
 }
 
+fn sclass(msg: &str) -> &'static str {
+    if msg.starts_with("end of input bytes") { "eoi" }
+    else if msg.starts_with("unexpected type") { "type" }
+    else if msg.starts_with("invalid utf-8") { "utf8" }
+    else if msg.starts_with("invalid char") { "char" }
+    else if msg.contains("overflows target type") { "overflow" }
+    else if msg.starts_with("decode error") { "message" }
+    else { "other" }
+}
+
+/// `sde <type> <hex>`: the serde bridge's Deserializer on types that exist without alloc.
+fn sde(w: &[&str]) -> String {
+    use serde::Deserialize;
+    let input = match w.get(1).and_then(|h| unhex(h)) { Some(b) => b, None => return "bad-op".into() };
+    let mut de = minicbor_serde::Deserializer::new(&input);
+    macro_rules! go { ($t:ty, $f:expr) => {{
+        let r = <$t>::deserialize(&mut de);
+        let pos = de.decoder().position();
+        match r { Ok(v) => format!("ok {} {}", $f(v), pos), Err(e) => format!("err {} {}", sclass(&e.to_string()), pos) }
+    }} }
+    match w[0] {
+        "u8" => go!(u8, |v: u8| v.to_string()),
+        "u64" => go!(u64, |v: u64| v.to_string()),
+        "i8" => go!(i8, |v: i8| v.to_string()),
+        "i64" => go!(i64, |v: i64| v.to_string()),
+        "bool" => go!(bool, |v: bool| (v as u8).to_string()),
+        "char" => go!(char, |v: char| (v as u32).to_string()),
+        "f32" => go!(f32, |v: f32| format!("{:08x}", v.to_bits())),
+        "f64" => go!(f64, |v: f64| format!("{:016x}", v.to_bits())),
+        "unit" => go!((), |_| "()".to_string()),
+        "opt_u8" => go!(Option<u8>, |v: Option<u8>| match v { None => "N".to_string(), Some(x) => format!("S({})", x) }),
+        "str" => go!(&str, |v: &str| hex(v.as_bytes())),
+        "bytes" => go!(&[u8], |v: &[u8]| hex(v)),
+        "tup2" => go!((u8, u8), |v: (u8, u8)| format!("[{},{}]", v.0, v.1)),
+        "tup3n" => go!((u8, (i8, bool), u16), |v: (u8, (i8, bool), u16)| format!("[{},[{},{}],{}]", v.0, (v.1).0, (v.1).1 as u8, v.2)),
+        "arr2" => go!([u8; 2], |v: [u8; 2]| format!("[{},{}]", v[0], v[1])),
+        "arr2tup" => go!([(u8, u8); 2], |v: [(u8, u8); 2]| format!("[[{},{}],[{},{}]]", v[0].0, v[0].1, v[1].0, v[1].1)),
+        "opt_tup" => go!(Option<(u8, u8)>, |v: Option<(u8, u8)>| match v { None => "N".to_string(), Some(x) => format!("S([{},{}])", x.0, x.1) }),
+        _ => "bad-op".into()
+    }
+}
+
+/// `sser <type> <args…>`: the serde bridge's Serializer into a fixed buffer.
+fn sser(w: &[&str]) -> String {
+    use serde::Serialize;
+    let mut ser = minicbor_serde::Serializer::new(Cursor::new([0u8; 96]));
+    let a = w.get(1).copied().unwrap_or("");
+    macro_rules! num { ($t:ty) => { match a.parse::<$t>() { Ok(x) => x, Err(_) => return "bad-op".into() } } }
+    let r = match w[0] {
+        "u8" => num!(u8).serialize(&mut ser).map(|_| ()),
+        "u64" => num!(u64).serialize(&mut ser).map(|_| ()),
+        "i8" => num!(i8).serialize(&mut ser).map(|_| ()),
+        "i64" => num!(i64).serialize(&mut ser).map(|_| ()),
+        "bool" => (a == "1").serialize(&mut ser).map(|_| ()),
+        "char" => match char::from_u32(num!(u32)) { Some(c) => c.serialize(&mut ser).map(|_| ()), None => return "bad-op".into() },
+        "unit" => ().serialize(&mut ser).map(|_| ()),
+        "opt_u8" => (if a == "N" { None } else { Some(num!(u8)) }).serialize(&mut ser).map(|_| ()),
+        "str" => match unhex(a).and_then(|b| String::from_utf8(b).ok()) { Some(s) => s.as_str().serialize(&mut ser).map(|_| ()), None => return "bad-op".into() },
+        "tup2" => { let v = num!(u16); ((v >> 8) as u8, v as u8).serialize(&mut ser).map(|_| ()) }
+        "arr2" => { let v = num!(u16); [(v >> 8) as u8, v as u8].serialize(&mut ser).map(|_| ()) }
+        "f32" => match u32::from_str_radix(a, 16) { Ok(b) => f32::from_bits(b).serialize(&mut ser).map(|_| ()), Err(_) => return "bad-op".into() },
+        _ => return "bad-op".into()
+    };
+    match r {
+        Ok(()) => { let e = ser.into_encoder(); let n = e.writer().position(); hex(&e.writer().get_ref()[.. n]) }
+        Err(_) => "err".into()
+    }
+}
+
 fn dispatch(w: &[&str]) -> String {
     match w[0] {
+        "sde" => sde(&w[1..]),
+        "sser" => sser(&w[1..]),
         "enc" => enc(&w[1..]),
         "dec" => dec(&w[1..]),
         _ => "bad-op".into()
